@@ -95,6 +95,8 @@ OTHERS = [
     ([('x', 'INPUT', ())], ('x',)),
     # gates listing an operand twice (the users index must list them once per occurrence)
     ([('x', 'INPUT', ()), ('y', 'INPUT', ()), ('z', 'AND', ('x', 'x')), ('w', 'OR', ('z', 'y', 'z'))], ('w', 'z')),
+    # a constant gate without operands (as connector of a right connection it drives a base input like any other gate)
+    ([('x', 'INPUT', ()), ('t', 'ALWAYS_FALSE', ()), ('z', 'OR', ('x', 't'))], ('z', 't')),
     # a constant that carries operands (it must still come after them wherever the circuit is copied)
     ([('x', 'INPUT', ()), ('y', 'INPUT', ()), ('z', 'OR', ('x', 'y')), ('t', 'ALWAYS_TRUE', ('z',)), ('w', 'AND', ('t', 'z'))], ('w', 't')),
 ]
@@ -161,7 +163,8 @@ def fold_connect(ck: Checker, R: str, R_block: str | None = None):
         for right in (False, True):
             cases = connector_cases(bspec, ospec, right)
             if not thorough:
-                cases = cases[::3] + cases[1:2]
+                const0 = {l for l, t, ops in ospec if t in ('ALWAYS_TRUE', 'ALWAYS_FALSE') and not ops}
+                cases = cases[::3] + cases[1:2] + [cs for cs in cases if const0 & set(cs[1])][:4]
             for TC, OC in cases:
                 for name, add_prefix in (('blk', True), ('', True), ('blk', False)):
                     n_cases += 1
@@ -246,6 +249,19 @@ def fold_connect(ck: Checker, R: str, R_block: str | None = None):
                                 break
                         if bad:
                             bprobs.append(f'{bad}: {desc}')
+                        # a base gate feeding several attached inputs is renamed afterwards: the block follows the rename in every position
+                        if not right and len(set(TC)) < len(TC) and not bad:
+                            _, err = M.call(base, 'rename_gate', TC[0], 'renamed_connector')
+                            if not err:
+                                try:
+                                    M.interp.steps = 0
+                                    ex2 = RepoFunc(M.interp, mod, blk_fn, bound_self=blk)()
+                                    xs2 = cm.snapshot(ex2)
+                                    if len(xs2['inputs']) != len(xs['inputs']) or len(xs2['outputs']) != len(xs['outputs']) or cm.invariant_problems(ex2):
+                                        bprobs.append(f'after rename_gate({TC[0]!r}, ...) the extracted block has inputs {xs2["inputs"]} (before: {xs["inputs"]}): {desc}')
+                                except InterpRaise as e:
+                                    bprobs.append(f'after rename_gate({TC[0]!r}, ...) extracting the block raises {e.exc_name}: {desc}')
+                                M.call(base, 'rename_gate', 'renamed_connector', TC[0])
                         # the same region cut out of the composed circuit by the block's own interface (documented: the gates
                         # between the given outputs and the given inputs) is the block again
                         if not right:
